@@ -193,7 +193,7 @@ def run(chk: core.Check):
     chk.assumptions += ["ties between savings are excluded as the property states (NumPy argsort order among ties is unspecified)"]
     skipf = lambda c, r: r["outcome"][5:] if r["outcome"].startswith("skip:") else None  # noqa: E731
     rng = core.rng_for(chk.seed, "C16/table")
-    cases = [gen_case(rng, 12) for _ in range(N)]
+    cases = core.Gen(gen_case, rng, 12, N)
     res = chk.run_stream("table", cases, impl, oracle=oracle, skip=skipf, site="MVCAPA/icolumns",
                          nontrivial=lambda c, r: r.get("outcome") == "ok" and any(len(cs) >= 2 for cs in r["cols"]),
                          describe=lambda c: {k: v for k, v in c.items() if k not in ("T", "P")})
@@ -219,7 +219,7 @@ def run(chk: core.Check):
     if ls:
         chk.samples.append({"stream": "table/model", "line": ls[0][:200], "model": outs[0]})
     rng = core.rng_for(chk.seed, "C16/builtin")
-    chk.run_stream("builtin", [gen_builtin(rng, 40) for _ in range(N // 5)], impl_builtin, oracle=oracle_builtin, site="MVCAPA/builtin",
+    chk.run_stream("builtin", core.Gen(gen_builtin, rng, 40, N // 5), impl_builtin, oracle=oracle_builtin, site="MVCAPA/builtin",
                    nontrivial=lambda c, r: r.get("outcome") == "ok" and any(len(cs) >= 2 for cs in r["cols"]),
                    describe=lambda c: {k: v for k, v in c.items() if k != "X"})
     return chk.finish()
